@@ -1,5 +1,5 @@
-HOOK_COMMITS = ['261214f', '7473a7b']
-FIX_COMMITS = ['6ab1b61', 'aa5da3f', '23893cd', 'b2f43bf', '6457cb8', '9d7243e', '99e9484', '2173ac6', '62af4cc', '26a6dc2', '11fc74a', '0f6d027']
+HOOK_COMMITS = ['261214f', '7473a7b', 'b193b9c']
+FIX_COMMITS = ['6ab1b61', 'aa5da3f', '23893cd', 'b2f43bf', '6457cb8', '9d7243e', '99e9484', '2173ac6', '62af4cc', '26a6dc2', '11fc74a', '0f6d027', 'e5a31d6', '90ab653']
 NOTES = ('Every check: proof gate (full coq build, forbidden-construct scan, Print Assumptions allow-list = empty) '
          '+ correspondence (extracted model vs real code on corpus + generated cases) + model-free oracle; '
          'known findings in known_findings.json. See DESIGN.md.')
@@ -148,3 +148,35 @@ CLAIMED['C16'] = dict(
          'clap/toml/humantime/chrono_tz are exercised, not modelled; the no-fault theorem covers the strategy loop, the aggregator only by execution on the grid.',
     technique='Coq proof (case analysis per option, list induction for item maps, inversion of the validation chain) + differential testing of the extracted model '
               'against the real parsers and build_config + exhaustive execution of the builder grid')
+
+# bin/manifest_data.py : entry for C02, and the text to merge into CLAIMED['C04'] (receive half)
+CLAIMED['C02'] = dict(
+    text='Coq theorems (decode half): for every configuration cell - ICMP, UDP classic / Paris / Dublin x fixed source / destination / both ports, TCP; IPv4 and IPv6; extension parsing on or off - '
+         'and every tracer state ts, the datagram carrying the fields probe_data chooses for sequence(ts) (written as an explicit byte string: IP header + ICMP echo / UDP / TCP header + payload), '
+         'quoted by a standards-conforming peer in a Time Exceeded or Destination Unreachable (any quotation length >= IP header + 8 octets for IPv4, >= min(datagram, 1232) for IPv6 incl. truncation by the 1024-octet receive buffer, '
+         'TTL / hop limit, header checksum and TOS / traffic class rewritten to ANY value, no extension / RFC 4884 compliant structure / legacy 128-octet form with any well-formed objects, outer IPv4 options) or answered by an Echo Reply, '
+         'or by the outcome of the TCP handshake on the probe socket, is decoded by the receive path into a response that Strategy::validate accepts, whose trace id passes check_trace_id and whose recovered sequence is exactly sequence(ts); '
+         'the quotation of a datagram with another protocol, (UDP/TCP) another destination address or fixed port, a missing Dublin marker, or (ICMP) another non-zero identifier is never accepted. '
+         'Correspondence: real Channel<SimSocket>::recv_probe + real strategy functions (hooks) on responses built by an independent Rust encoder, every sequence 0..65534 of every cell in the thorough tier; the bytes the real dispatch emits are compared with the probe constructors.',
+    note='trusted: Coq kernel; hand-written models Net/Recv4.v, Recv6.v, Recv.v, RecvCommon.v (after the repairs C04_fix_3, C04_fix_4 and 26a6dc2, 62af4cc) and model A (validate / strategy_resp / probe_data), tied to the code by differential execution; spec Net/RfcPeer.v is independent of the code; no axioms. '
+         'Known finding F15 (not repaired): for ICMP the quoted destination address is not checked - a quoted echo request to another host carrying this tracer\'s identifier is accepted (c02_icmp_other_destination_refuted). '
+         'Not covered: IPv4 responses longer than the 1024-octet buffer (a conforming router sends at most 576 octets); the send side itself is C11 (here only the probe-shape lines). The remaining in_round test and slot completion are C03 / C07.',
+    technique='Coq proof (layered symbolic evaluation of the receive path on header ++ arbitrary tail; arithmetic by lia; case analysis over probe_data) + differential testing of extracted model vs implementation + model-free oracle through the real strategy functions')
+
+# CLAIMED['C04'] - replace the "PARTIAL until the receive-path slice is merged" sentence by:
+C04_RECV_TEXT = ('receive path: for every configuration (protocol x privilege x extension mode x addresses x pattern) and EVERY byte string of any length, Ipv4::recv_icmp_probe / Ipv6::recv_icmp_probe and Network::recv_probe '
+                 '(incl. recv_tcp_socket outcomes and socket errors) return a response, nothing or an error value - never a fault; the strategy step consuming the response does not fault; the extension iterators never exhaust their fuel. '
+                 'Correspondence: 180 k (quick) / 2.4 M (thorough) datagrams through the real Channel<SimSocket>::recv_probe: structure-aware mutations, truncation at every position, random bytes, '
+                 'sweeps of outer / nested IHL, UDP length, IPv6 payload length, RFC 4884 octet 0..255 and object lengths against every buffer length.')
+C04_RECV_NOTE = ('receive-path model Net/Recv4.v, Recv6.v, Recv.v, RecvCommon.v after the repairs C04_fix_3 (u16 underflow of `udp length - 8`, IPv4 and IPv6) and C04_fix_4 (u16 underflow of `payload_len - 6` when the Dublin marker is present but the length field is short). '
+                 'An error value returned by recv_probe ends the tracer (Strategy::run propagates it): a 20..27-octet datagram on the raw socket is enough; that is within the letter of C04 (an error value, no panic) and is reported, not repaired.')
+
+CLAIMED['C04'] = dict(
+    text='Coq theorems. Packet half: for every packet view (19) and every buffer of at least the minimum size every non-mutating accessor / payload() / options / iterator returns without fault; '
+         'for ANY buffer a view is either rejected with an error value or all accessors succeed; the extension splitter, object / MPLS iterators and Extensions::try_from never fault and terminate within len/4+1 steps, for any bytes. '
+         + C04_RECV_TEXT +
+         ' The strategy loop never faults for any response delivered at the Network interface (C09 c09_run_never_faults). '
+         'Correspondence (packet half): every accessor x structure-aware / random buffers, exhaustive sweeps of IHL, TCP data offset, RFC 4884 length octet, object lengths against every buffer length.',
+    note='trusted: Coq kernel; hand-written models Packet/Views.v, Packet/IcmpExt.v (after the repairs 62af4cc, 26a6dc2, 11fc74a) and ' + C04_RECV_NOTE +
+         ' All tied to the code by differential execution; no axioms. Not modelled: the socket layer itself (SimSocket stands in), IPv4 datagrams longer than the 1024-octet receive buffer are truncated by the harness as recv_from does.',
+    technique='Coq proof (totality lemmas per accessor and per receive-path function over checked slicing; fuel-sufficiency) + differential testing + panic oracle with exhaustive field-value x buffer-length sweeps')
